@@ -33,7 +33,7 @@ def check(prop, tier, replay_file=None):
                 bad = vlib.tlc_failed(out)
                 if bad or rc != 0:
                     raise vlib.Inconclusive("case enumeration %s failed (%s):\n%s" % (fam, bad, out[-2000:]))
-                cs = [json.loads(json.loads(m.group(1))) for m in re.finditer(r'<<"CASE", (".*")>>', out)]
+                cs = [json.loads(json.loads(m.group(1))) for m in re.finditer(r'<<\s*"CASE",\s*(".*")\s*>>', out)]
                 gen, dist = vlib.tlc_stats(out)
                 explored.append(dict(family=fam, cases=len(cs), generated=gen, distinct=dist, wall_s=round(wall, 1)))
                 cases += cs
@@ -61,8 +61,8 @@ def check(prop, tier, replay_file=None):
             bad = vlib.tlc_failed(out)
             if bad or "No error has been found" not in out or "Postcondition" in out:
                 raise vlib.Inconclusive("pure validation batch %d did not complete (%s):\n%s" % (bi, bad, out[-2000:]))
-            beyond += len(re.findall(r'<<"BEYOND", \d+>>', out))
-            for m in re.finditer(r'<<"VIOLATION", (\d+), \{([^}]*)\}>>', out):
+            beyond += len(re.findall(r'<<\s*"BEYOND",\s*\d+\s*>>', out))
+            for m in re.finditer(r'<<\s*"VIOLATION",\s*(\d+),\s*\{([^}]*)\}\s*>>', out, re.S):
                 L = ls[int(m.group(1)) - 1]
                 for c in re.findall(r'"(\w+)"', m.group(2)):
                     if c.startswith(prop + "_"):
